@@ -133,8 +133,25 @@ impl Property for C36 {
             out.probe(&format!("token:{}:{}", tsa_name, if token.is_none() { "absent" } else if usable { "usable" } else { "unusable" }));
             for clk in picks {
                 c2pa::verif::set_clock(Some(clk));
-                let rep = sdk::guarded(|| sdk::read_plain(&ctx, fmt.mime(), &signed));
+                // odd runs validate through the asynchronous API; both forms must agree (C40)
+                let use_async = (rc.idx + c as u64) % 2 == 1;
+                let rep = sdk::guarded(|| if use_async { sdk::read_plain_async(&ctx, fmt.mime(), &signed) } else { sdk::read_plain(&ctx, fmt.mime(), &signed) });
+                let other = sdk::guarded(|| if use_async { sdk::read_plain(&ctx, fmt.mime(), &signed) } else { sdk::read_plain_async(&ctx, fmt.mime(), &signed) });
                 c2pa::verif::set_clock(None);
+                if let (Ok(a), Ok(b)) = (&rep, &other) {
+                    let same = match (a, b) {
+                        (Ok(x), Ok(y)) => x.state == y.state && x.codes == y.codes,
+                        (Err(x), Err(y)) => x == y,
+                        _ => false,
+                    };
+                    if !same {
+                        out.violate(sub, &format!("@C40:sync-async-differ:timestamp:{tsa_name}"), "C40 synchronous and asynchronous validation agree",
+                            json!({"certificate": ee, "peer": tsa_name, "validation_clock": clk,
+                                   "first": a.as_ref().map(|r| r.brief()).map_err(|e| e.clone()), "second": b.as_ref().map(|r| r.brief()).map_err(|e| e.clone()), "first_is_async": use_async}));
+                    } else {
+                        out.probe("sync-async-agree");
+                    }
+                }
                 out.evals += 1;
                 out.sim_time_s += (clk - 1_560_000_000).unsigned_abs();
                 let rep = match rep {
